@@ -104,7 +104,15 @@ class Req:
             return 'R %d %s' % (f['idx'], h16(f['msg']))
         if self.cmd == 'Y':
             return 'Y %d %d %d ' % (f['flag'], f['maxw'], len(f['items'])) + ' '.join('%d %s %s' % (t, h8(c), h16(m)) for t, c, m in f['items'])
+        if self.cmd == 'G':
+            return 'G %d ' % len(f['items']) + ' '.join('%d %s %s' % (t, h8(c), h16(m)) for t, c, m in f['items'])
         raise ValueError(self.cmd)
+
+    def seq_model_line(self):
+        """input of build/m_safety in mode pretty (Y) / configure (G): the categories as UTF-16 of the same ASCII bytes"""
+        f = self.f
+        head = '%d %d ' % (f['flag'], f['maxw']) if self.cmd == 'Y' else ''
+        return head + '%d ' % len(f['items']) + ' '.join('%d %s %s' % (t, h16p(c), h16(m)) for t, c, m in f['items'])
 
     def model_line(self):
         """input of build/m_safety (pattern mode): category and file as UTF-16 (ASCII in the diffed inputs)"""
@@ -138,6 +146,10 @@ class Req:
         if f['items']:
             d['items'] = [[t, None if c is None else show8(c[:60]), show16(m[:60])] for t, c, m in f['items'][:8]]
         d['sizes'] = {k: len(f[k]) for k in ('pattern', 'msg', 'rules', 'cat', 'file', 'func') if f[k]}
+        if self.cmd == 'Y':
+            d['colorize'], d['maxCategoryWidth'] = f['flag'], f['maxw']
+        if self.cmd == 'G':
+            d['chain'] = 'configure(&pipeline, <path>, 0, 0, None, async=false); pipeline.process(each item)'
         if self.answer_units is not None:
             d['answer_units'] = self.answer_units
         return d
@@ -390,6 +402,71 @@ def null_sweep_other(rng):
     return out
 
 
+# PrettyFormatter(colorize, maxCategoryWidth): the column limit is an int the caller chooses; INT_MAX is the natural
+# "no limit", 0 / negative switch the alignment off.  Every boundary of the int range x category sequences that GROW
+# the column (each longer field recomputes qMin(field, limit) and the padding of the following shorter ones)
+LIMITS = [INT_MAX, INT_MAX - 1, INT_MAX - 2, INT_MAX - 3, 0, 1, -1, -INT_MAX - 1, -INT_MAX, 2, 3, 4, 5, 1 << 30, (1 << 30) - 1,
+          INT_MAX - 4, INT_MAX // 2, 65535, 65536, 16]
+GROW_CATS = [b'a', b'ui', b'app', b'qt.qml', b'app.network', b'app.network.http', b'c' * 40, b'c' * 200]
+
+
+def grow_items(rng, n_extra=2):
+    """a message sequence whose category fields grow (with shorter / default / null ones in between)"""
+    k = rng.randint(2, len(GROW_CATS))
+    cats = sorted(rng.sample(GROW_CATS, k), key=len)
+    items = []
+    for c in cats:
+        items.append((rng.randrange(5), list(c), u16(rng.choice(['x', 'hello', '', 'a b']))))
+        if rng.random() < 0.5:
+            items.append((rng.randrange(5), rng.choice([list(b'ui'), list(b'default'), None, list(b'a')]), u16('y')))
+    for _ in range(n_extra):
+        items.append((rng.randrange(5), rng.choice([list(b'ui'), list(b'default'), None, list(rng.choice(GROW_CATS))]), gen_text(rng, 12)))
+    return items
+
+
+def limit_family(rng, thorough):
+    out = []
+    for maxw in LIMITS:
+        for colorize in (0, 1):
+            # the smallest trigger first: one message with a non-default category, then one more
+            out.append(Req('Y', flag=colorize, maxw=maxw, items=[(rng.randrange(5), list(b'app.network'), u16('x')), (rng.randrange(5), list(b'ui'), u16('y'))]))
+            for _ in range(4 if thorough else 1):
+                out.append(Req('Y', flag=colorize, maxw=maxw, items=grow_items(rng)))
+    return out
+
+
+# message texts for the formatter chain of configure(pipeline, path, ...): the FunctionFormatter behind PrettyFormatter
+# removes the colour codes again, so the MESSAGE TEXT meets a scanner for ESC [ ... m: complete codes, cut-off codes
+# (ESC [ with no final byte behind it - debug messages get no trailing reset code), nested and adjacent fragments
+ESC_FR = ['\033[', '\033[1;3', '\033[m', '\033[0m', '\033[1;32m', '\033', '[', 'm', ';', '0', '31', '\033[\033[0m0m', '\033[[', '\033[;m',
+          '\033[2J', '\033[38;5;208', '\033\033[', '\033[1m\033[', 'text', ' ', 'x', '\033]0;t\007', '\033[?25l', '\u009b1m', '\033[\u0661m', '\n']
+ESC_FIXED = ['\033[', '\033[1;3', '\033[m', 'a\033[', 'a\033[1;3', '\033[\033[0m0m', '\033[\033[', '\033[1;31mred\033[0m', 'x\033', '\033[2J',
+             'done \033[1;32mok\033[0m then \033[', '\033[;;;', '\033[0', 'm\033[', '\033[\033[\033[m', '\033[1;3x\033[m', '', 'plain text']
+
+
+def gen_esc_text(rng, maxfr=8):
+    return u16(''.join(rng.choice(ESC_FR) for _ in range(rng.randint(1, maxfr))))
+
+
+def configure_family(rng, n):
+    """requests for the configure() chain: every fixed fragment text x every message type (one message each, and as the
+    last / first message of a short sequence), then random fragment compositions and the arbitrary-unit message family"""
+    out = []
+    for txt in ESC_FIXED:
+        for t in range(5):
+            out.append(Req('G', items=[(t, list(rng.choice([b'default', b'app', b'app.network'])), u16(txt))]))
+    for _ in range(n):
+        items = []
+        for _ in range(rng.randint(1, 4)):
+            r = rng.random()
+            msg = gen_esc_text(rng) if r < 0.7 else gen_text(rng, 40)
+            if r > 0.9:
+                msg = msg + u16(rng.choice(['\033[', '\033[1;3', '\033']))
+            items.append((rng.randrange(5), or_null(rng, rng.choice(ASCII_CATS + [b'c' * rng.randint(1, 40)]), 0.1), msg))
+        out.append(Req('G', items=items))
+    return out
+
+
 RULE_FR = ['*', '.', '=', 'true', 'false', ';', '\n', ' ', 'app', 'qt', '.debug', '.info', '.warning', '.critical', '.fatal', '*.*',
            'a.b.c', '\\', '[', ']', '(', ')', '+', '?', '^', '$', '{1,2}', '|', '\u00e9', '\t', '=true', '=false', 'x' * 20, '\\E', '\\Q']
 
@@ -592,6 +669,19 @@ def shrink_req(req, still_bad0, budget_steps=120, wall_s=25.0):
     if cur.f['items']:
         it = vlib.shrink_list(cur.f['items'], lambda c: still_bad(cur.copy(items=c)), max_steps=30)
         cur = cur.copy(items=it)
+        # ... and the texts inside the items that are left (message first, then category)
+        for i in range(len(cur.f['items'])):
+            for pos in (2, 1):
+                v = cur.f['items'][i][pos]
+                if not v:
+                    continue
+
+                def with_v(c, i=i, pos=pos):
+                    its = [tuple(x) for x in cur.f['items']]
+                    its[i] = tuple(c if j == pos else its[i][j] for j in range(3))
+                    return cur.copy(items=its)
+                small = vlib.shrink_list(list(v), lambda c: still_bad(with_v(c)), max_steps=budget_steps)
+                cur = with_v(small)
     return cur
 
 
@@ -613,7 +703,22 @@ def answer_bound(rq):
         nums = [int(x) for x in re.findall(r'[0-9]+', ''.join(chr(u) if u < 128 else ' ' for u in f['pattern']))]
         w = max([0] + [x for x in nums if x <= INT_MAX])
         return len(f['pattern']) + (len(f['pattern']) // 4 + 1) * max(w, longest)
-    return 12 * rq.size() + 4096 + abs(f['maxw']) * (len(f['items']) + 1)
+    # padding per message: at most min(limit, longest "[name] " field)
+    pad = min(max(f['maxw'], 0), max([ln(c) for _, c, _ in f['items']] + [0]) + 3)
+    return 12 * rq.size() + 4096 + pad * (len(f['items']) + 1)
+
+
+def has_sub(units, sub):
+    n = len(sub)
+    return any(units[i:i + n] == sub for i in range(len(units) - n + 1))
+
+
+def unfinished(units):
+    """the text ends in ESC [ <digits ;>* with no final byte: an unfinished colour code"""
+    i = len(units)
+    while i > 0 and (48 <= units[i - 1] <= 57 or units[i - 1] == 59):
+        i -= 1
+    return i >= 2 and units[i - 2:i] == [27, 91]
 
 
 def total_width(pattern):
@@ -733,38 +838,57 @@ def run():
         reqs_c.append(Req('Y', flag=rng.randrange(2), maxw=rng.choice([0, 15, 15, 1, 5, 100, -3, 2000]), items=items))
     sweep_other = null_sweep_other(rng)
     reqs_c += [r for r in sweep_other if r.cmd == 'Y']
-    res_c = run_parallel(impl, [r.line() for r in reqs_c], nproc)
-    mlines = ['%d %d %d ' % (r.f['flag'], r.f['maxw'], len(r.f['items'])) +
-              ' '.join('%d %s %s' % (t, h16p(c), h16(m)) for t, c, m in r.f['items']) for r in reqs_c]
-    rc, mod_c, err = vlib.run_lines(m_safety, mlines, ['pretty'], timeout=600)
-    mod_c += ['?'] * (len(reqs_c) - len(mod_c))
-    dis_c, fault_c = [], []
-    for rq, r, m in zip(reqs_c, res_c, mod_c):
-        if r[0] != 'ok':
-            skipped += r[0] == 'skipped'
-            if r[0] != 'skipped':
-                findings.append((rq, impl, r[0], r[3]))
-            continue
-        if not m.startswith('ok'):
-            fault_c.append((rq, m)); continue
-        toks = r[1].split()
-        outs = []
-        if any(toobig(t) is not None for t in toks):
-            rq.answer_units = max(toobig(t) or 0 for t in toks)
-            findings.append((rq, impl, 'length', 'PrettyFormatter answer of %d code units' % rq.answer_units))
-            continue
-        for i in range(0, len(toks), 2):
-            tm, o = un16(toks[i]), un16(toks[i + 1])
-            outs.append(h16(o[len(tm) + 1:]) if o[:len(tm)] == tm else 'BAD-TIME-PREFIX')
-        if outs != m.split()[1:]:
-            dis_c.append((rq, ' '.join(outs), ' '.join(m.split()[1:])))
+    # the column limit over the whole int range (INT_MAX = "no limit", INT_MAX-1..-3, 0, +-1, INT_MIN, powers of two) x
+    # category sequences that grow the column; also part of the random mix from here on
+    reqs_limit = limit_family(rng, thorough)
+    reqs_c += reqs_limit
+    for _ in range(600 if thorough else 80):
+        reqs_c.append(Req('Y', flag=rng.randrange(2), maxw=rng.choice(LIMITS), items=grow_items(rng, rng.randint(0, 3))))
+
+    def seq_leg(reqs, mode, label):
+        """a message sequence through one formatter object / one configure() chain: real vs checked model"""
+        nonlocal skipped
+        res = run_parallel(impl, [r.line() for r in reqs], nproc)
+        rc, mod, err = vlib.run_lines(m_safety, [r.seq_model_line() for r in reqs], [mode], timeout=600)
+        mod += ['?'] * (len(reqs) - len(mod))
+        dis, fault, us_max = [], [], 0
+        for rq, r, m in zip(reqs, res, mod):
+            if r[0] != 'ok':
+                skipped += r[0] == 'skipped'
+                if r[0] != 'skipped':
+                    findings.append((rq, impl, r[0], r[3]))
+                continue
+            us_max = max(us_max, r[2])
+            if r[2] > BUDGET_S * 1e6:
+                findings.append((rq, impl, 'slow', '%d us' % r[2]))
+                continue
+            if not m.startswith('ok'):
+                fault.append((rq, m)); continue
+            toks = r[1].split()
+            outs = []
+            if any(toobig(t) is not None for t in toks):
+                rq.answer_units = max(toobig(t) or 0 for t in toks)
+                findings.append((rq, impl, 'length', '%s answer of %d code units' % (label, rq.answer_units)))
+                continue
+            for i in range(0, len(toks), 2):
+                tm, o = un16(toks[i]), un16(toks[i + 1])
+                outs.append(h16(o[len(tm) + 1:]) if o[:len(tm)] == tm else 'BAD-TIME-PREFIX')
+            if outs != m.split()[1:]:
+                dis.append((rq, ' '.join(outs), ' '.join(m.split()[1:])))
+        return res, dis, fault, us_max
+    res_c, dis_c, fault_c, us_c = seq_leg(reqs_c, 'pretty', 'PrettyFormatter')
+    max_us = max(max_us, us_c)
+    # ---- leg G: the formatter chain configure(pipeline, path, ...) builds, message texts with ESC fragments ------
+    reqs_g = configure_family(rng, 3000 if thorough else 400)
+    res_g, dis_g, fault_g, us_g = seq_leg(reqs_g, 'configure', 'configure() chain')
+    max_us = max(max_us, us_g)
     # ---- leg D: ASan+UBSan over everything, sizes up to 64 KiB, time budget -------------------
     reqs_d = []
     big = [1 << 10, 1 << 12, 1 << 14, 1 << 16]
     nd = 6000 if thorough else 900
     kinds_d = {}
     for i in range(nd):
-        k = rng.choice('PPPPFFFJSCCRY')
+        k = rng.choice('PPPPFFFJSCCRYG')
         kinds_d[k] = kinds_d.get(k, 0) + 1
         if k == 'F':
             reqs_d.append(Req('P', pattern=u16(rng.choice(['%{func}', '%{function}', '%{func:<20!}', '[%{func}] %{message}'])),
@@ -781,6 +905,11 @@ def run():
                               cat=or_null(rng, rng.choice(ASCII_CATS) if rng.random() < 0.6 else bytes(rng.randrange(1, 256) for _ in range(rng.randint(0, 256))))))
         elif k == 'R':
             reqs_d.append(Req('R', idx=rng.randrange(12), msg=gen_text(rng, 400)))
+        elif k == 'G':
+            r0 = rng.choice(reqs_g)
+            # the same chain with arbitrary category bytes and arbitrary-unit texts (no model comparison here)
+            reqs_d.append(r0 if rng.random() < 0.5 else Req('G', items=[(t, or_null(rng, bytes(rng.randrange(1, 256) for _ in range(rng.randint(0, 20))), 0.1),
+                                                                             m + gen_text(rng, 200)) for t, c, m in r0.f['items']]))
         else:
             reqs_d.append(rng.choice(reqs_c))
     # targeted families on the sanitized build: marker-only function texts (ASan: the strip loop must not read past the
@@ -788,6 +917,9 @@ def run():
     # 10+ digits (UBSan: no digit-by-digit accumulation into an int)
     reqs_fam = [Req('P', pattern=u16(rng.choice(['%{func}', '%{func}', '%{func:>6}|%{function}'])), func=list(s)) for s in strip_sigs]
     reqs_fam += reqs_null + null_sweep(rng, NAMES_EXT) + sweep_other + reqs_width
+    # the column limit at every boundary of the int range (UBSan: qMin(field, limit), limit +- k, column - field), and the
+    # configure() chain on the fixed escape-fragment texts x all message types
+    reqs_fam += reqs_limit + reqs_g[:5 * len(ESC_FIXED)] + reqs_g[5 * len(ESC_FIXED):][:600 if thorough else 60]
     reqs_d += reqs_fam
     # long inputs: every string position once at each size
     nbig = 0
@@ -808,7 +940,11 @@ def run():
                               attrs=[(u16('a'), longtext[:size // 2])])); nbig += 1
             reqs_d.append(Req('R', idx=rng.randrange(12), msg=longtext)); nbig += 1
             reqs_d.append(Req('C', rules=u16(gen_rules(rng)), cat=[rng.randrange(1, 256) for _ in range(256)])); nbig += 1
-            reqs_d.append(Req('Y', flag=1, maxw=15, items=[(rng.randrange(5), [rng.randrange(1, 256) for _ in range(size // 4)], longtext)])); nbig += 1
+            reqs_d.append(Req('Y', flag=1, maxw=rng.choice([15, 15, INT_MAX, 1 << 30]), items=[(rng.randrange(5), [rng.randrange(1, 256) for _ in range(size // 4)], longtext)])); nbig += 1
+            esclong = []
+            while len(esclong) < size:
+                esclong += gen_esc_text(rng, 12) if rng.random() < 0.8 else gen_text(rng, 60)
+            reqs_d.append(Req('G', items=[(t, list(b'app'), esclong[:size] + u16(rng.choice(['', '\033[', '\033[1;3']))) for t in (rng.randrange(5), 0)])); nbig += 1
     # adversarial star rules x near-miss categories: time budget on the plain build (a few also go through the sanitized run)
     reqs_star = star_family(rng, thorough)
     res_star = run_parallel(impl, [r.line() for r in reqs_star], 4)
@@ -874,8 +1010,13 @@ def run():
         investigate(rq, 'pattern output differs from the checked model on %d cases' % len(dis_b), show16(un16(io)), show16(un16(mo)))
     for rq, m in fault_c[:2]:
         investigate(rq, 'checked PrettyFormatter model returns None', None, m)
-    for rq, io, mo in dis_c[:1]:
+    for rq, io, mo in sorted(dis_c, key=lambda x: x[0].size())[:1]:
         investigate(rq, 'PrettyFormatter output differs from the checked model on %d cases' % len(dis_c), io, mo)
+    for rq, m in fault_g[:2]:
+        investigate(rq, 'checked model of the configure() formatter chain returns None', None, m)
+    for rq, io, mo in sorted(dis_g, key=lambda x: x[0].size())[:1]:
+        investigate(rq, 'text that reaches the file sink of the configure() chain differs from the checked model (PrettyFormatter, colour codes '
+                        'removed) on %d cases' % len(dis_g), io, mo)
 
     # ---- falsifying inputs: shrink and report ---------------------------------------------------
     seen = set()
@@ -937,7 +1078,7 @@ def run():
     def has(s, b):
         return b in s
     sigs_all, sigs = sigs, [x for x in sigs if x is not None]
-    all_reqs = reqs_a + reqs_b + reqs_c + reqs_d
+    all_reqs = reqs_a + reqs_b + reqs_c + reqs_g + reqs_d
     null_hist = {k: sum(1 for r in all_reqs if r.cmd in ('P', 'J', 'S', 'C') and r.f[k] is None) for k in ('file', 'func', 'cat')}
     null_hist['pretty_items'] = sum(1 for r in all_reqs if r.cmd == 'Y' for _, c, _ in r.f['items'] if c is None)
     null_hist['all_three'] = sum(1 for r in all_reqs if r.cmd in ('P', 'J', 'S') and r.f['file'] is None and r.f['func'] is None and r.f['cat'] is None)
@@ -960,14 +1101,18 @@ def run():
            'objc_prefix': sum(s[:1] in (b'+', b'-') for s in sigs), 'byte_ge_0x80': sum(any(c >= 128 for c in s) for s in sigs),
            'qualifier_tail': sum(any(s.endswith(q) for q in (b' const', b' volatile', b' noexcept', b' override', b' final')) for s in sigs),
            'empty': sum(1 for s in sigs if not s)}
-    evals = len(sigs) + len(reqs_b) + len(reqs_c) + len(lines_d) + len(reqs_star) + len(probes) + 1
+    evals = len(sigs) + len(reqs_b) + len(reqs_c) + len(reqs_g) + len(lines_d) + len(reqs_star) + len(probes) + 1
     chk.cov.update({
         'evaluations': evals,
         'distinct_nontrivial': len({s for s, r in zip(sigs_all, res_a) if s is not None and r[0] == 'ok' and r[1] != h16(list(s))}) + nontrivial_b,
         'rule': 'A: fragment-composed / mutated-real / random-byte signatures <= 4 KiB through %{func}, real vs checked cleanup model; '
                 'B: grammar-directed patterns (all tokens, conditionals, optional attributes, every fill/align/width/! form, malformed '
                 'specs, unterminated placeholders) x messages/attributes/paths, real vs checked pattern model and resource bound; '
-                'C: PrettyFormatter message sequences, real vs checked model; D: ASan+UBSan build over P/J/S/C/R/Y requests with '
+                'C: PrettyFormatter message sequences, real vs checked model, the column limit maxCategoryWidth at every boundary of the int '
+                'range (INT_MAX = no limit, INT_MAX-1..-4, 0, +-1, INT_MIN, 2^30, ...) x category sequences that grow the column (plain+model AND '
+                'sanitized); G: the formatter chain of configure(pipeline, path, ...) (PrettyFormatter -> colour codes removed -> file sink) on '
+                'message texts made of ESC fragments (cut-off, complete, nested codes) x all message types, real vs checked model, time budget, '
+                'plain AND sanitized, texts up to 64 KiB; D: ASan+UBSan build over P/J/S/C/R/Y requests with '
                 'arbitrary bytes and every string position at sizes up to 64 KiB, per-input time budget; E: category rules with 8..40 stars x '
                 'matching / near-miss / missing categories <= 256 bytes under the 2 s budget; families (plain+model AND sanitized): '
                 'function texts of which only * & blanks remain, every placeholder / formatter / filter x null file / function / '
@@ -979,6 +1124,21 @@ def run():
         'pattern_cases': len(reqs_b), 'pattern_model_faults': len(fault_b), 'pattern_disagreements': len(dis_b),
         'pattern_piece_histogram': hist_b, 'pattern_nontrivial': nontrivial_b,
         'pretty_cases': len(reqs_c), 'pretty_model_faults': len(fault_c), 'pretty_disagreements': len(dis_c),
+        'pretty_column_limit_histogram': {str(w): sum(1 for r in reqs_c if r.f['maxw'] == w) for w in sorted({r.f['maxw'] for r in reqs_c})},
+        'pretty_column_limit_family_cases': len(reqs_limit),
+        'pretty_limit_cases_where_the_column_grows': sum(1 for r in reqs_c if r.f['maxw'] in LIMITS and
+                                                         len({ln(c) for _, c, _ in r.f['items'] if c != list(b'default')}) > 1),
+        'pretty_limit_cases_on_sanitized_build': sum(1 for r in reqs_d if r.cmd == 'Y' and abs(r.f['maxw']) >= INT_MAX - 3),
+        'configure_chain_cases': len(reqs_g), 'configure_chain_model_faults': len(fault_g), 'configure_chain_disagreements': len(dis_g),
+        'configure_chain_on_sanitized_build': sum(1 for r in reqs_d if r.cmd == 'G'),
+        'configure_chain_messages': sum(len(r.f['items']) for r in reqs_g),
+        'configure_chain_text_histogram': {
+            'with_esc_bracket': sum(1 for r in reqs_g for _, _, m in r.f['items'] if has_sub(m, [27, 91])),
+            'unfinished_code_at_end_debug': sum(1 for r in reqs_g for t, _, m in r.f['items'] if t == 0 and unfinished(m)),
+            'unfinished_code_at_end_other_types': sum(1 for r in reqs_g for t, _, m in r.f['items'] if t != 0 and unfinished(m)),
+            'complete_code': sum(1 for r in reqs_g for _, _, m in r.f['items'] if has_sub(m, [27, 91, 48, 109]) or has_sub(m, [27, 91, 109])),
+            'by_type': {str(t): sum(1 for r in reqs_g for tt, _, _ in r.f['items'] if tt == t) for t in range(5)}},
+        'configure_chain_nontrivial': sum(1 for r, x in zip(reqs_g, res_g) if x[0] == 'ok' and any(has_sub(m, [27, 91]) for _, _, m in r.f['items'])),
         'sanitizer_cases': len(lines_d), 'sanitizer_kinds': kinds_d, 'sanitizer_long_inputs': nbig,
         'sanitizer_max_input_size': max(r.size() for r in reqs_d), 'sanitizer_reports': sum(1 for f in findings if f[1] == san),
         'time_budget_s': BUDGET_S, 'time_budget_sanitized_s': SAN_BUDGET_S, 'long_inputs_rerun_on_plain_build': len(long_reqs), 'max_elapsed_us_plain': max_us, 'max_elapsed_us_sanitized': max_us_san, 'over_budget': slow, 'requests_not_run_after_repeated_crashes': skipped,
